@@ -30,22 +30,22 @@ class C02Prop(NlpProp):
         res = NlpProp.run(self, tier, seed, jobs)
         # collocation coefficients of the model vs CasADi's, for every (degree, scheme)
         from ..common import setup_rockit_path
-        setup_rockit_path()
+        rockit = setup_rockit_path()
         import casadi as ca
         from fractions import Fraction
         from ..common import jq
         cfg = [(d, s) for d in range(1, 6) for s in ("radau", "legendre")]
-        taus = [[jq(Fraction(float(v))) for v in ca.collocation_points(d, s)] for d, s in cfg]
+        meths = [rockit.DirectCollocation(N=1, degree=d, scheme=s) for d, s in cfg]     # the coefficients rockit uses
+        taus = [[jq(Fraction(float(v))) for v in m.tau] for m in meths]
         mod = engine.model_coeffs(taus, "C02coeffs")
         worst = 0.0
-        for (d, s), (C, D, B) in zip(cfg, mod):
-            Cr, Dr, Br = ca.collocation_coeff(ca.collocation_points(d, s))
-            Cr, Dr, Br = np.array(Cr), np.array(Dr).reshape(-1), np.array(Br).reshape(-1)
+        for (d, s), m, (C, D, B) in zip(cfg, meths, mod):
+            Cr, Dr, Br = np.array(ca.DM(m.C)), np.array(ca.DM(m.D)).reshape(-1), np.array(ca.DM(m.B)).reshape(-1)
             err = max(np.abs(np.array(C) - Cr).max(), np.abs(np.array(D) - Dr).max(), np.abs(np.array(B) - Br).max())
             worst = max(worst, float(err))
             if err > 1e-9:
                 res["disagreements"].append({"property": "C02", "finding_key": None,
-                                             "what": [{"what": "collocation coefficients C/D/B differ from the Lagrange-polynomial definition",
+                                             "what": [{"what": "collocation coefficients C/D/B of DirectCollocation differ from the Lagrange-polynomial definition of the model",
                                                        "degree": d, "scheme": s, "max_abs_err": float(err)}],
                                              "case": {"degree": d, "scheme": s}, "points": []})
         res["extra"]["coeff_configs"] = len(cfg)
